@@ -10,8 +10,31 @@ import (
 // globalConst models package-level maps that are initialised in the package init with constant keys:
 // the key set is exact (the map is assumed not to be modified afterwards), the values are unconstrained.
 func (x *Exec) globalConst(s *State, g *ssa.Global, T types.Type) (*Val, bool) {
+	if g.Pkg == nil {
+		return nil, false
+	}
+	// package-level values initialised by a constructor applied to constants (e.g. PowerReduction = NewIntFromUint64(1e18))
+	if ifn := g.Pkg.Func("init"); ifn != nil {
+		for _, b := range ifn.Blocks {
+			for _, in := range b.Instrs {
+				st, ok := in.(*ssa.Store)
+				if !ok || st.Addr != g {
+					continue
+				}
+				if call, ok := st.Val.(*ssa.Call); ok && call.Call.StaticCallee() != nil {
+					switch call.Call.StaticCallee().String() {
+					case "cosmossdk.io/math.NewIntFromUint64", "cosmossdk.io/math.NewInt":
+						if c, ok := call.Call.Args[0].(*ssa.Const); ok {
+							x.c.note("global " + g.String() + " = constant from its initialiser (assumed immutable)")
+							return x.valOf(s, T, x.constVal(s, c).S), true
+						}
+					}
+				}
+			}
+		}
+	}
 	mt, ok := T.Underlying().(*types.Map)
-	if !ok || g.Pkg == nil {
+	if !ok {
 		return nil, false
 	}
 	initFn := g.Pkg.Func("init")
